@@ -42,7 +42,7 @@ func registerAll() {
 	plans["C01"] = &Plan{ID: "C01", Level: "exploration",
 		Legs:   []Leg{{World: "uw", Profile: "hostile", Quick: 20000, Weight: 5}, {World: "uw", Profile: "mixed", Quick: 10000, Weight: 3}, {World: "uw", Profile: "rawmut", Quick: 4000, Weight: 1}},
 		Rule:   "each evaluation = one seeded Unpack scenario (1-3 archives of 1-12 entries into one destination, adversarial names/link targets, reader chunking and faults) executed on the real code in a chroot arena; total snapshot of the arena minus dst compared before/after every Unpack call. distinct = distinct canonical scenario hash; non-trivial = >=2 entries, or a fired reader fault, or a decorated name.",
-		Assume: []string{"no other process writes into the arena during an operation", "linux/amd64 only", "bounds: <=12 entries x <=3 archives, path depth <=4, '..' runs <=6"},
+		Assume: []string{"no other process writes into the arena during an operation", "linux/amd64 only", "bounds: <=12 entries (well-formed profile, one archive in ten: 13-40) x <=3 archives, path depth <=4, '..' runs <=6; destinations: plain, trailing slash, nested, through a symlinked parent, itself a symlink, only child of its parent"},
 		Real:   realCommon, Sim: uwSim}
 	plans["C04"] = &Plan{ID: "C04", Level: "exploration",
 		Legs:   []Leg{{World: "uw", Profile: "hostile", Quick: 20000, Weight: 5}, {World: "uw", Profile: "mixed", Quick: 10000, Weight: 3}},
@@ -51,7 +51,7 @@ func registerAll() {
 		Real:   realCommon, Sim: uwSim}
 	plans["C15"] = &Plan{ID: "C15", Level: "exploration",
 		Legs:   []Leg{{World: "uw", Profile: "small", Quick: 5000, Weight: 2, Index: true}, {World: "uw", Profile: "wellformed", Quick: 20000, Weight: 6}},
-		Rule:   "each evaluation = one well-formed archive sequence (entries accepted by the reference interpreter: no '..', no path through a link, links relative and inside; same-type repeats, read-only repeats, children before parents, PAX/GNU/USTAR encodings, global headers, empty names, unrepresentable types) unpacked by the real code as uid 0 or 65534; dst is compared path by path with the reference interpreter's tree (type, content, mode&0777, mtime, link target; implicit parents for existence only). 'small' seeds index all sequences of length <=3 over a 6-path universe. distinct = scenario hash; non-trivial = >=2 entries or decorated name.",
+		Rule:   "each evaluation = one well-formed archive sequence (entries accepted by the reference interpreter: no '..', no path through a link, links relative and inside; same-type repeats, read-only repeats, children before parents, PAX/GNU/USTAR encodings, global headers, empty names, unrepresentable types, modification times at the epoch, before it, at the 32-bit limits and beyond) unpacked by the real code as uid 0 or 65534; dst is compared path by path with the reference interpreter's tree (type, content, mode&0777, mtime, link target; implicit parents for existence only). 'small' seeds index all sequences of length <=3 over a 6-path universe. distinct = scenario hash; non-trivial = >=2 entries or decorated name.",
 		Assume: []string{"what the archive says = what Go's archive/tar reader decodes", "type-changing repeats are outside the strict class (outcome unspecified by the statement)", "implicit parent directories compared for existence only"},
 		Real:   realCommon, Sim: uwSim}
 }
